@@ -28,10 +28,12 @@ func (o op) String() string {
 	switch o.k {
 	case "newenum":
 		return o.k
-	case "newmsg", "newstd":
+	case "newmsg", "newstd", "newmsgbus":
 		return fmt.Sprintf("%s %d", o.k, o.z)
-	case "newenumsig", "removeall", "compact", "removeallvalues", "muxclearall":
+	case "newenumsig", "removeall", "compact", "removeallvalues", "muxclearall", "rename":
 		return fmt.Sprintf("%s %d", o.k, o.a)
+	case "resizebus":
+		return fmt.Sprintf("%s %d %d %d", o.k, o.a, o.z, o.b) // message, new size, limit of the bus
 	case "newmux":
 		return fmt.Sprintf("%s %d %d", o.k, o.a, o.z) // count, gsize
 	case "append", "remove", "setenum", "removevalue", "muxremove":
@@ -69,10 +71,12 @@ func parseOp(line string) (op, error) {
 	o := op{k: f[0]}
 	switch f[0] {
 	case "newenum":
-	case "newmsg", "newstd":
+	case "newmsg", "newstd", "newmsgbus":
 		o.z = n(1)
-	case "newenumsig", "removeall", "compact", "removeallvalues", "muxclearall":
+	case "newenumsig", "removeall", "compact", "removeallvalues", "muxclearall", "rename":
 		o.a = n(1)
+	case "resizebus":
+		o.a, o.z, o.b = n(1), n(2), n(3)
 	case "newmux":
 		o.a, o.z = n(1), n(2)
 	case "append", "remove", "setenum", "removevalue", "muxremove":
@@ -109,11 +113,70 @@ type world struct {
 	valIdx map[acmelib.EntityID]int
 	enumOf map[int]int // enum signal handle -> enum handle (harness bookkeeping only)
 	uniq   int
+	// a CAN 2.0A bus (messages of at most 8 bytes) with one node interface: the sender of the
+	// messages created by "newmsgbus"
+	bus     *acmelib.Bus
+	nodeInt *acmelib.NodeInterface
+	onBus   map[int]bool
+	// names that signals carried before a rename, and never-attached probe signals by name
+	retired []string
+	probes  map[string]acmelib.Signal
 }
+
+const busLimit = 8
 
 func newWorld() *world {
 	return &world{types: map[int]*acmelib.SignalType{}, sigIdx: map[acmelib.EntityID]int{}, sigNm: map[string]int{},
-		msgIdx: map[acmelib.EntityID]int{}, valIdx: map[acmelib.EntityID]int{}, enumOf: map[int]int{}}
+		msgIdx: map[acmelib.EntityID]int{}, valIdx: map[acmelib.EntityID]int{}, enumOf: map[int]int{},
+		onBus: map[int]bool{}, probes: map[string]acmelib.Signal{}}
+}
+
+// the sender interface of the bus messages (created on first use)
+func (w *world) senderInterface() *acmelib.NodeInterface {
+	if w.nodeInt != nil {
+		return w.nodeInt
+	}
+	w.bus = acmelib.NewBus("bus")
+	w.bus.SetType(acmelib.BusTypeCAN2A)
+	node := acmelib.NewNode("node", 1, 1)
+	ni, err := node.GetInterface(0)
+	if err != nil {
+		panic("harness: " + err.Error())
+	}
+	if err := w.bus.AddNodeInterface(ni); err != nil {
+		panic("harness: " + err.Error())
+	}
+	w.nodeInt = ni
+	return ni
+}
+
+// a never-attached 1-bit signal carrying the given name
+func (w *world) probe(name string) acmelib.Signal {
+	if p, ok := w.probes[name]; ok {
+		return p
+	}
+	t, err := w.typeOf(1)
+	if err != nil {
+		panic("harness: " + err.Error())
+	}
+	p, err := acmelib.NewStandardSignal(name, t)
+	if err != nil {
+		panic("harness: " + err.Error())
+	}
+	w.probes[name] = p
+	return p
+}
+
+// nameTaken: would the multiplexer refuse a new signal of that name? Observed without changing
+// anything: the insertion of a probe into group -1 is refused either by the name check (first) or
+// by the group id check.
+func (w *world) nameTaken(u *acmelib.MultiplexerSignal, name string) bool {
+	err := u.InsertSignal(w.probe(name), 0, -1)
+	if err == nil {
+		panic("harness: a probe signal was inserted into group -1")
+	}
+	var ne *acmelib.NameError
+	return errors.As(err, &ne)
 }
 
 func (w *world) typeOf(size int) (*acmelib.SignalType, error) {
@@ -183,9 +246,15 @@ func (w *world) apply(o op) (res string) {
 	okSig := func(h int) bool { return h >= 0 && h < len(w.sigs) }
 	okEnum := func(h int) bool { return h >= 0 && h < len(w.enums) }
 	switch o.k {
-	case "newmsg":
+	case "newmsg", "newmsgbus":
 		w.uniq++
 		m := acmelib.NewMessage(fmt.Sprintf("m%d", len(w.msgs)), acmelib.MessageID(len(w.msgs)+1), o.z)
+		if o.k == "newmsgbus" {
+			// a size the bus refuses (> 8 bytes): the message stays without sender
+			if err := w.senderInterface().AddSentMessage(m); err == nil {
+				w.onBus[len(w.msgs)] = true
+			}
+		}
 		w.msgIdx[m.EntityID()] = len(w.msgs)
 		w.msgs = append(w.msgs, m)
 		return "ok"
@@ -263,6 +332,28 @@ func (w *world) apply(o op) (res string) {
 			return "invalid"
 		}
 		return errResult(w.msgs[o.a].UpdateSizeByte(o.z))
+	case "resizebus":
+		if !okMsg(o.a) {
+			return "invalid"
+		}
+		if !w.onBus[o.a] || o.b != busLimit {
+			panic("harness: resizebus on a message that is not sent on the bus")
+		}
+		return errResult(w.msgs[o.a].UpdateSizeByte(o.z))
+	case "rename":
+		if !okSig(o.a) {
+			return "invalid"
+		}
+		old := w.sigs[o.a].Name()
+		w.uniq++
+		nn := fmt.Sprintf("s%dn%d", o.a, w.uniq)
+		err := w.sigs[o.a].UpdateName(nn)
+		if err == nil {
+			delete(w.sigNm, old)
+			w.sigNm[nn] = o.a
+			w.retired = append(w.retired, old)
+		}
+		return errResult(err)
 	case "byteorder":
 		if !okMsg(o.a) {
 			return "invalid"
@@ -391,6 +482,7 @@ type run struct {
 type muxInfo struct {
 	count, gsize, selw int
 	runs               []run
+	taken              []int // handles whose name the multiplexer refuses for a new signal (-1: a retired name)
 }
 
 type msgInfo struct {
@@ -517,9 +609,20 @@ func (w *world) snapshot() *snap {
 				mi.runs = append(mi.runs, run{lo: g, hi: g, hs: hs})
 			}
 		}
+		for x, s := range w.sigs {
+			if w.nameTaken(u, s.Name()) {
+				mi.taken = append(mi.taken, x)
+			}
+		}
+		for _, nm := range w.retired {
+			if w.nameTaken(u, nm) {
+				mi.taken = append(mi.taken, -1)
+			}
+		}
+		sort.Ints(mi.taken)
 		sn.mux[h] = mi
 		sep()
-		fmt.Fprintf(&b, "U%d:%d:%d:%d:{", h, mi.count, mi.gsize, mi.selw)
+		fmt.Fprintf(&b, "U%d:%d:%d:%d:T[%s]:{", h, mi.count, mi.gsize, mi.selw, ints(mi.taken))
 		for i, r := range mi.runs {
 			if i > 0 {
 				b.WriteByte(';')
